@@ -33,7 +33,11 @@ RULE = ('(audited against harness/GENERATOR_CHECKLIST.md) ranked profiles over 1
         '-1/-2, selector and distributor form (max_seats up to 3, prev_gains); every evaluate() run is recorded count by count '
         '(stv_trace), plus single counts from synthetic states with a large exhausted pile (stv_next) and nth_count (stv_nth). '
         'Non-trivial = at least two candidates and at least one executed count; distinct by canonical request.')
-NOT_VERIFIED = ['random module: Hare draws are recorded from distribute_n_random and replayed to the model as an oracle stream '
+NOT_VERIFIED = ['Decimal (and float) vote counts: the STV classes raise TypeError in every configuration (Fraction(Decimal, ...) in the '
+                'quota functions / Decimal // float without a quota); generated as a pinned refusal, whatever is returned instead is compared',
+                'a retainer other than Plurality(), a non-negative eliminate_step once nobody is left (IndexError instead of '
+                'VotingSystemError): outside the quantifier, accepted as equivalent outcomes',
+                'random module: Hare draws are recorded from distribute_n_random and replayed to the model as an oracle stream '
                 '(each checked against the DrawOK contract, which the model enforces as well)',
                 'iteration order of frozensets (shared ranks) is passed to the model as observed in the harness process',
                 'order of papers inside a pile (compared as multisets)',
@@ -151,6 +155,9 @@ def impl(case):
         _tag(case, 'stv_nth')
     else:
         raise ValueError(case['op'])
+    obs, leak = defloat(obs)
+    if leak and not any(str(b).startswith('float in') for b in obs.get('_bad_draws', [])):
+        obs.setdefault('_bad_draws', []).insert(0, 'float in an exact path: ' + leak)
     _CACHE[key] = obs.get('_draws', [])
     if obs.get('_draws'):
         _tag(case, 'hare_draw')
@@ -349,7 +356,7 @@ def _overshoot(case, detail):
 def _oracle_trace(case, obs):
     out = []
     if obs['_bad_draws']:
-        out.append(('draw_contract', obs['_bad_draws'][0]))
+        out.append(('float_in_exact_path' if obs['_bad_draws'][0].startswith('float in') else 'draw_contract', obs['_bad_draws'][0]))
     res = obs['result']
     overshoot = _overshoot(case, obs['_detail'])
     allowed = _allowed_errors(case)
@@ -359,7 +366,11 @@ def _oracle_trace(case, obs):
     Vq = sum((Fraction(w) for _, w in case['votes']), Fraction(0))
     want_q = ref_quota(case, Vq, case['n'])
     for i, rec in enumerate(obs['_detail']):
-        if 'err' in rec or rec['shortcut']:
+        if 'err' in rec:
+            if not rec.get('quota_computed'):
+                continue
+            rec = dict(rec, quota=rec.get('quota_seen'))
+        elif rec['shortcut']:
             continue
         got_q = Fraction(rec['quota']) if rec.get('quota') is not None else None
         if (case.get('quota') is None or quota_is_const(case.get('quota')) or case.get('quota') in REF_QUOTAS) and got_q != want_q:
@@ -418,7 +429,7 @@ def _oracle_trace(case, obs):
 def _oracle_next(case, obs):
     out = []
     if obs.get('_bad_draws'):
-        out.append(('draw_contract', obs['_bad_draws'][0]))
+        out.append(('float_in_exact_path' if obs['_bad_draws'][0].startswith('float in') else 'draw_contract', obs['_bad_draws'][0]))
     if 'err' in obs:
         if obs['err'] not in (_allowed_errors(case) - {'VotingSystemError'}):
             out.append(('unexpected_error', f"{obs['err']}: {obs.get('_msg')}"))
@@ -436,7 +447,7 @@ def oracle(case, obs):
         return _oracle_next(case, obs)
     out = []
     if obs.get('_bad_draws'):
-        out.append(('draw_contract', obs['_bad_draws'][0]))
+        out.append(('float_in_exact_path' if obs['_bad_draws'][0].startswith('float in') else 'draw_contract', obs['_bad_draws'][0]))
     if ('err' in obs and obs['err'] not in _allowed_errors(case)
             and not _overshoot(case, obs.get('_detail', []))):
         out.append(('unexpected_error', obs['err']))
